@@ -459,4 +459,535 @@ theorem step_hb (st : RemoteLimiter.State) (ok : Bool) (now : Int) :
       = .ok { st with hb := some (RemoteLimiter.hbStep (st.hb.getD {}) ok now) } := by
   simp [RemoteLimiter.step]
 
+/-! ## what such a gateway hands out -/
+
+theorem obs_noremote {st : RemoteLimiter.State} {c : RemoteLimiter.Cache} (hc : st.cache = some c) {l t : Int}
+    (hloc : c.loc = ⟨mkSchema l t, some (.mi l)⟩) (hr : c.remote = none) :
+    view st = some t ∧ localLimit st = some l ∧ raw st = none ∧ applied st = none ∧ usesRemote st = false ∧
+      enforced st = some l := by
+  obtain ⟨loc, rem⟩ := c
+  simp only at hloc hr
+  subst hloc; subst hr
+  refine ⟨?_, ?_, ?_, ?_, ?_, ?_⟩
+  · simp [view, hc, mkSchema]
+  · simp [localLimit, hc, mkSchema]
+  · simp [raw, hc]
+  · simp [applied, RemoteLimiter.observe, hc]
+  · simp [usesRemote, RemoteLimiter.load, hc, gwCfg, mkSchema]
+  · simp [enforced, RemoteLimiter.observe, RemoteLimiter.load, hc, gwCfg, mkSchema, limSize]
+
+theorem obs_remote {st : RemoteLimiter.State} {c : RemoteLimiter.Cache} (hc : st.cache = some c) {l t q b : Int}
+    (hloc : c.loc = ⟨mkSchema l t, some (.mi l)⟩) (hr : c.remote = some (remShape q b)) :
+    view st = some t ∧ localLimit st = some l ∧ raw st = some q ∧ applied st = some b ∧
+      usesRemote st = RemoteLimiter.isReady st ∧
+      enforced st = (if RemoteLimiter.isReady st then some b else some l) := by
+  obtain ⟨loc, rem⟩ := c
+  simp only at hloc hr
+  subst hloc; subst hr
+  refine ⟨?_, ?_, ?_, ?_, ?_, ?_⟩
+  · simp [view, hc, mkSchema]
+  · simp [localLimit, hc, mkSchema]
+  · simp [raw, hc, remShape, mkItem]
+  · simp [applied, RemoteLimiter.observe, hc, remShape, RemoteLimiter.GFC.inner, limSize]
+  · cases hrd : RemoteLimiter.isReady st <;> simp [usesRemote, RemoteLimiter.load, hc, gwCfg, mkSchema, hrd, remShape]
+  · cases hrd : RemoteLimiter.isReady st <;>
+      simp [enforced, RemoteLimiter.observe, RemoteLimiter.load, hc, gwCfg, mkSchema, hrd, remShape,
+        RemoteLimiter.GFC.inner, limSize]
+
+/-- the per-gateway clauses of the judge hold for every gateway state of the loop's shape -/
+theorem judgeG_ok {st : RemoteLimiter.State} (h : GwOK st) {c : RemoteLimiter.Cache} (hc : st.cache = some c)
+    (id : Nat) (fresh : Bool) (hf : fresh = true → FreshOK st) :
+    judgeG { id := id, remote := usesRemote st, enforced := (enforced st).getD 0, raw := raw st, applied := applied st,
+             view := (view st).getD 0, loc := (localLimit st).getD 0, ready := RemoteLimiter.isReady st,
+             fresh := fresh } = [] := by
+  obtain ⟨l, t, a0, a1, a2, hloc, hrem⟩ := h c hc
+  rcases hrem with hr | ⟨q, tv, b0, b1, hr⟩
+  · obtain ⟨o1, o2, o3, o4, o5, o6⟩ := obs_noremote hc hloc hr
+    simp [judgeG, o2, o5, o6]
+  · obtain ⟨o1, o2, o3, o4, o5, o6⟩ := obs_remote hc hloc hr
+    have hb := bound_range' q tv b0
+    cases hrd : RemoteLimiter.isReady st with
+    | false => simp [judgeG, o2, o5, o6, hrd]
+    | true =>
+      have hle : 0 ≤ q → bound q tv ≤ q := bound_le_self q tv
+      have hfr : fresh = true → bound q tv = bound q t := by
+        intro hfr
+        obtain ⟨l', t', q', e1, e2⟩ := hf hfr c hc
+        rw [hloc] at e1
+        obtain ⟨_, e3⟩ := mkSchema_inj e1
+        rw [hr] at e2
+        simp only [remShape, Option.some.injEq, RemoteLimiter.Remote.mk.injEq] at e2
+        have e4 := mkItem_inj e2.1
+        have e5 := mkItem_inj e2.2.1
+        rw [e5, ← e4, ← e3]
+      have hbt := bound_range' q t
+      simp only [judgeG, o1, o2, o3, o4, o5, o6, hrd, if_true, Option.getD_some]
+      have c3 : fresh = true → bound q tv = bound q t ∧ (0 ≤ t → bound q tv ≤ t) := by
+        intro hf'
+        have e := hfr hf'
+        exact ⟨e, fun ht => by rw [e]; exact (hbt ht).2⟩
+      rw [if_pos ⟨trivial, hb.1⟩, if_pos hle, if_pos c3]
+      rfl
+
+/-! ## the gateways of the loop -/
+
+structure GwInv (n : Nat) (g : Gw) : Prop where
+  ok : ∀ u, GwOK (g.st n u)
+  fresh : ∀ u, g.fresh.contains u = true → FreshOK (g.st n u)
+  hb : ∀ u, (g.st n u).hb = g.hbs
+
+/-- a gateway whose `upstreamLimiter` for `u` was replaced by `st'`, everything else about its limiters kept -/
+theorem st_of_aset (n : Nat) (g g' : Gw) (u : Nat) (st' : RemoteLimiter.State) (hu : g'.ups = aset g.ups u st')
+    (hh : g'.hbs = g.hbs) : g'.st n u = st' ∧ ∀ v, v ≠ u → g'.st n v = g.st n v := by
+  constructor
+  · simp [Gw.st, hu, aget_aset_self]
+  · intro v hv; simp [Gw.st, hu, hh, aget_aset_ne _ _ _ _ hv]
+
+theorem gwInv_init (n i : Nat) : GwInv n ⟨i, true, true, none, [], []⟩ := by
+  refine ⟨fun u => ?_, fun u h => by simp at h, fun u => rfl⟩
+  intro c hc; simp [Gw.st, aget, gwInit] at hc
+
+theorem gwInv_reset (n : Nat) (g : Gw) (id : Nat) :
+    GwInv n { g with id := id, alive := true, hbs := none, ups := [], fresh := [] } := by
+  refine ⟨fun u => ?_, fun u h => by simp at h, fun u => rfl⟩
+  intro c hc; simp [Gw.st, aget, gwInit] at hc
+
+/-- a gateway that differs in identity / liveness / reachability only -/
+theorem gwInv_congr {n : Nat} {g g' : Gw} (h : GwInv n g) (h1 : g'.ups = g.ups) (h2 : g'.hbs = g.hbs)
+    (h3 : g'.fresh = g.fresh) : GwInv n g' := by
+  have hst : ∀ u, g'.st n u = g.st n u := by intro u; simp [Gw.st, h1, h2]
+  exact ⟨fun u => by rw [hst]; exact h.ok u, fun u hu => by rw [hst]; exact h.fresh u (h3 ▸ hu),
+    fun u => by rw [hst, h2]; exact h.hb u⟩
+
+/-- gateway `g` has synced a valid schema for `u` (abstract form: `g'` is the gateway afterwards) -/
+theorem gwInv_schema_abs {n : Nat} {g g' : Gw} (h : GwInv n g) (u : Nat) {l t : Int} (h0 : 0 ≤ l) (h1 : l ≤ t)
+    (h2 : t ≤ maxInt32) {c' : RemoteLimiter.Cache} (hloc : c'.loc = ⟨mkSchema l t, some (.mi l)⟩)
+    (hrem : c'.remote = ((g.st n u).cache.bind (·.remote)))
+    (hups : g'.ups = aset g.ups u { g.st n u with cache := some c' }) (hhbs : g'.hbs = g.hbs)
+    (hfresh : g'.fresh = if view (g.st n u) = some t then g.fresh else g.fresh.filter (· != u)) : GwInv n g' := by
+  have hok' := gwOK_schema (h.ok u) h0 h1 h2 hloc hrem
+  obtain ⟨hsu, hsv⟩ := st_of_aset n g g' u _ hups hhbs
+  refine ⟨?_, ?_, ?_⟩
+  · intro v
+    by_cases hv : v = u
+    · subst hv; rw [hsu]; exact hok'
+    · rw [hsv v hv]; exact h.ok v
+  · intro v hvf
+    rw [hfresh] at hvf
+    by_cases hv : v = u
+    · subst hv
+      rw [hsu]
+      split at hvf
+      · rename_i hview
+        -- the view is unchanged: the remote limiter is still the held quota bounded by it
+        have hfo := h.fresh v hvf
+        intro c hc
+        simp only [Option.some.injEq] at hc
+        subst hc
+        cases hcache : (g.st n v).cache with
+        | none => simp [view, hcache] at hview
+        | some c0 =>
+          obtain ⟨l0, t0, q0, e1, e2⟩ := hfo c0 hcache
+          have : t0 = t := by
+            simp [view, hcache, e1, mkSchema] at hview; exact hview
+          subst this
+          refine ⟨l, t0, q0, by rw [hloc], ?_⟩
+          rw [hrem, hcache]; simpa using e2
+      · simp at hvf
+    · rw [hsv v hv]
+      apply h.fresh v
+      split at hvf
+      · exact hvf
+      · simp only [List.contains_eq_mem, List.mem_filter, decide_eq_true_eq] at hvf ⊢
+        exact hvf.1
+  · intro v
+    rw [hhbs]
+    by_cases hv : v = u
+    · subst hv; rw [hsu]; exact h.hb v
+    · rw [hsv v hv]; exact h.hb v
+
+theorem gwInv_schema {n : Nat} {g : Gw} (h : GwInv n g) (u : Nat) {l t : Int} (h0 : 0 ≤ l) (h1 : l ≤ t)
+    (h2 : t ≤ maxInt32) :
+    GwInv n { g.apply n u (.schema (mkSchema l t)) with
+              fresh := if view (g.st n u) = some t then g.fresh else g.fresh.filter (· != u) } := by
+  obtain ⟨c', hstep, hloc, hrem⟩ := step_schema (h.ok u) h0 h1 h2
+  apply gwInv_schema_abs h u h0 h1 h2 hloc hrem
+  · simp [Gw.apply, stepOr, hstep]
+  · simp [Gw.apply]
+  · rfl
+
+/-- gateway `g` has applied the answered quota `q` for `u` (abstract form) -/
+theorem gwInv_answer_abs {n : Nat} {g g' : Gw} (h : GwInv n g) (u : Nat) (q : Int) {c : RemoteLimiter.Cache}
+    {l t : Int} (hc : (g.st n u).cache = some c) (hloc : c.loc = ⟨mkSchema l t, some (.mi l)⟩) (t0 : 0 ≤ t)
+    (t1 : t ≤ maxInt32)
+    (hups : g'.ups = aset g.ups u { g.st n u with cache := some { c with remote := some (remShape q (bound q t)) } })
+    (hhbs : g'.hbs = g.hbs) (hfresh : g'.fresh = if g.fresh.contains u then g.fresh else u :: g.fresh) :
+    GwInv n g' := by
+  obtain ⟨hok', hfresh'⟩ := gwOK_answer (n := q) (h.ok u) hc hloc t0 t1
+  obtain ⟨hsu, hsv⟩ := st_of_aset n g g' u _ hups hhbs
+  refine ⟨?_, ?_, ?_⟩
+  · intro v
+    by_cases hv : v = u
+    · subst hv; rw [hsu]; exact hok'
+    · rw [hsv v hv]; exact h.ok v
+  · intro v hvf
+    rw [hfresh] at hvf
+    by_cases hv : v = u
+    · subst hv; rw [hsu]; exact hfresh'
+    · rw [hsv v hv]
+      apply h.fresh v
+      split at hvf
+      · exact hvf
+      · simp only [List.contains_eq_mem, List.mem_cons, decide_eq_true_eq] at hvf ⊢
+        rcases hvf with e | e
+        · exact absurd e hv
+        · exact e
+  · intro v
+    rw [hhbs]
+    by_cases hv : v = u
+    · subst hv; rw [hsu]; exact h.hb v
+    · rw [hsv v hv]; exact h.hb v
+
+theorem gwInv_answer {n : Nat} {g : Gw} (h : GwInv n g) (u : Nat) (q : Int)
+    (hs : ((g.st n u).cache).isSome = true) :
+    GwInv n { g.apply n u (.answer true (mkItem q)) with
+              fresh := if g.fresh.contains u then g.fresh else u :: g.fresh } := by
+  rcases step_answer (h.ok u) q with ⟨hnone, _⟩ | ⟨c, l, t, hc, hloc, t0, t1, hstep⟩
+  · rw [hnone] at hs; cases hs
+  · apply gwInv_answer_abs h u q hc hloc t0 t1
+    · simp [Gw.apply, stepOr, hstep]
+    · simp [Gw.apply]
+    · rfl
+
+/-- the state of every `upstreamLimiter` after a heartbeat round: C09's `.hb` step of the state before -/
+theorem st_heartbeat {n : Nat} {g : Gw} (h : GwInv n g) (ok : Bool) (now : Int) (u : Nat) :
+    (g.heartbeat ok now).st n u
+      = { g.st n u with hb := some (RemoteLimiter.hbStep (g.hbs.getD {}) ok now) } := by
+  have hm := aget_map g.ups (fun _ st => stepOr st (.hb ok now false)) u
+  simp only [Gw.st, Gw.heartbeat]
+  rw [hm]
+  cases hu : aget g.ups u with
+  | none => simp [gwInit]
+  | some st =>
+    have hh := h.hb u
+    simp only [Gw.st, hu, Option.getD_some] at hh
+    simp [stepOr, step_hb, hh]
+
+theorem gwInv_heartbeat {n : Nat} {g : Gw} (h : GwInv n g) (ok : Bool) (now : Int) : GwInv n (g.heartbeat ok now) := by
+  refine ⟨?_, ?_, ?_⟩
+  · intro u c hc
+    rw [st_heartbeat h] at hc
+    exact h.ok u c hc
+  · intro u hu c hc
+    rw [st_heartbeat h] at hc
+    exact h.fresh u hu c hc
+  · intro u
+    rw [st_heartbeat h]
+    rfl
+
+/-! ## the loop invariant -/
+
+/-- what the loop's environment guarantees about its inputs: configured global limits are at least 1 (server side)
+    and schemas synced by gateways are the ones validation accepts (`0 ≤ local ≤ global ≤ 2^31 − 1`, C16) -/
+def OpOK : Op → Prop
+  | .list _ t => 1 ≤ t
+  | .gwSchema _ _ l t => 0 ≤ l ∧ l ≤ t ∧ t ≤ maxInt32
+  | _ => True
+
+instance (op : Op) : Decidable (OpOK op) := by
+  cases op <;> simp only [OpOK] <;> infer_instance
+
+structure LInv (s : State) : Prop where
+  srv : SrvInv s.srv
+  gws : ∀ g ∈ s.gws, GwInv s.nShards g
+
+theorem linv_init (nShards nGw : Nat) (k8s : Bool) : LInv (init nShards nGw k8s) := by
+  refine ⟨⟨by simp [init], by simp [init], by simp [init]⟩, ?_⟩
+  intro g hg
+  simp only [init, List.mem_map, List.mem_range] at hg
+  obtain ⟨i, _, rfl⟩ := hg
+  exact gwInv_init nShards i
+
+theorem gw_mem {s : State} {g : Nat} {x : Gw} (h : s.gw g = some x) : x ∈ s.gws :=
+  List.mem_of_getElem? h
+
+theorem linv_setGw {s : State} (h : LInv s) (g : Nat) (x : Gw) (hx : GwInv s.nShards x) : LInv (s.setGw g x) := by
+  refine ⟨h.srv, ?_⟩
+  intro y hy
+  rcases List.mem_or_eq_of_mem_set hy with e | e
+  · exact h.gws y e
+  · subst e; exact hx
+
+theorem linv_srv {s : State} (h : LInv s) (srv' : Server) (hs : SrvInv srv') : LInv { s with srv := srv' } :=
+  ⟨hs, h.gws⟩
+
+theorem step_nShards (shardOf : Nat → Nat) (s : State) (op : Op) : (step shardOf s op).nShards = s.nShards := by
+  cases op <;> simp only [step, State.setGw] <;> (repeat' split) <;> rfl
+
+theorem linv_step (shardOf : Nat → Nat) {s : State} (h : LInv s) (op : Op) (hop : OpOK op) :
+    LInv (step shardOf s op) := by
+  cases op with
+  | list u t =>
+    simp only [step]
+    refine ⟨⟨h.srv.ups, h.srv.api, ?_⟩, h.gws⟩
+    intro p hp
+    rcases mem_aset hp with e | e
+    · subst e; exact hop
+    · exact h.srv.listed p e.1
+  | handle u => exact linv_srv h _ (srvInv_handle shardOf h.srv u)
+  | gwSchema g u l t =>
+    simp only [step]
+    split
+    · exact h
+    · rename_i x hx
+      split
+      · exact linv_setGw h g _ (gwInv_schema (h.gws x (gw_mem hx)) u hop.1 hop.2.1 hop.2.2)
+      · exact h
+  | hb g now =>
+    simp only [step]
+    split
+    · exact h
+    · rename_i x hx
+      have hxi := h.gws x (gw_mem hx)
+      split
+      · exact h
+      · split
+        · exact linv_srv (linv_setGw h g _ (gwInv_heartbeat hxi true _)) _ (srvInv_heartbeat h.srv _ _)
+        · exact linv_setGw h g _ (gwInv_heartbeat hxi false _)
+  | report g u x m used lvl =>
+    simp only [step]
+    split
+    · exact h
+    · rename_i gw hgw
+      split
+      · exact h
+      · rename_i hrep
+        split
+        · exact h
+        · rename_i srv' n hsr
+          have hsrv : SrvInv srv' := by
+            have := srvInv_report shardOf h.srv u gw.id x m used lvl
+            rw [hsr] at this; exact this
+          have hcache : ((gw.st s.nShards u).cache).isSome = true := by
+            simp [reports] at hrep
+            cases hcc : (gw.st s.nShards u).cache with
+            | none => exact absurd hcc hrep.1.2
+            | some _ => rfl
+          exact linv_srv (linv_setGw h g _ (gwInv_answer (h.gws gw (gw_mem hgw)) u n hcache)) _ hsrv
+  | tick now =>
+    exact linv_srv h _ (srvInv_leaderCheck shardOf (srvInv_cleanupTimeout shardOf h.srv now))
+  | unknownPass => exact linv_srv h _ (srvInv_cleanupUnknown shardOf h.srv)
+  | elect k b => exact linv_srv h _ (srvInv_elect h.srv k b)
+  | gain k => exact linv_srv h _ (srvInv_startLeading shardOf (srvInv_elect h.srv k true) k)
+  | lose k => exact linv_srv h _ (srvInv_stopLeading shardOf (srvInv_elect h.srv k false) k)
+  | net g b =>
+    simp only [step]
+    split
+    · exact h
+    · rename_i x hx
+      exact linv_setGw h g _ (gwInv_congr (h.gws x (gw_mem hx)) rfl rfl rfl)
+  | crash g =>
+    simp only [step]
+    split
+    · exact h
+    · rename_i x hx
+      exact linv_setGw h g _ (gwInv_congr (h.gws x (gw_mem hx)) rfl rfl rfl)
+  | ret g id =>
+    simp only [step]
+    split
+    · exact h
+    · rename_i x hx
+      exact linv_setGw h g _ (gwInv_reset s.nShards x id)
+
+theorem linv_run (shardOf : Nat → Nat) : ∀ (ops : List Op) (s : State), LInv s → (∀ op ∈ ops, OpOK op) →
+    LInv (run shardOf s ops)
+  | [], s, h, _ => h
+  | op :: rest, s, h, hops => by
+    simp only [run, List.foldl_cons]
+    exact linv_run shardOf rest _ (linv_step shardOf h op (hops op List.mem_cons_self))
+      (fun o ho => hops o (List.mem_cons_of_mem _ ho))
+
+/-! ## the system-level clause follows from the per-gateway clauses and the recorded-quota invariant -/
+
+theorem sum_map_le {α : Type} (l : List α) (f g : α → Int) (h : ∀ x ∈ l, f x ≤ g x) : (l.map f).sum ≤ (l.map g).sum := by
+  induction l with
+  | nil => simp
+  | cons a rest ih =>
+    simp only [List.map_cons, List.sum_cons]
+    have := h a List.mem_cons_self
+    have := ih (fun x hx => h x (List.mem_cons_of_mem _ hx))
+    omega
+
+theorem lookupD_cons (j : Nat) (v : Int) (rest : List (Nat × Int)) (i : Nat) :
+    lookupD ((j, v) :: rest) i = if i = j then v else lookupD rest i := by
+  unfold lookupD
+  by_cases h : i = j
+  · subst h; simp [List.lookup]
+  · have : (i == j) = false := by simpa using h
+    simp [List.lookup, this, h]
+
+theorem lookupD_filter_ne (q : List (Nat × Int)) (a i : Nat) (h : i ≠ a) :
+    lookupD (q.filter (fun p => p.1 != a)) i = lookupD q i := by
+  induction q with
+  | nil => rfl
+  | cons p rest ih =>
+    obtain ⟨j, v⟩ := p
+    by_cases hj : j = a
+    · subst hj
+      have : ((j, v).1 != j) = false := by simp
+      simp only [List.filter_cons, this, Bool.false_eq_true, if_false, ih, lookupD_cons, h]
+    · have : ((j, v).1 != a) = true := by simpa using hj
+      simp only [List.filter_cons, this, if_true, lookupD_cons, ih]
+
+theorem mem_of_lookup {q : List (Nat × Int)} {a : Nat} {c : Int} (h : q.lookup a = some c) : (a, c) ∈ q := by
+  induction q with
+  | nil => simp [List.lookup] at h
+  | cons p rest ih =>
+    obtain ⟨j, v⟩ := p
+    by_cases hj : a = j
+    · subst hj; simp [List.lookup] at h; subst h; exact List.mem_cons_self
+    · have : (a == j) = false := by simpa using hj
+      simp [List.lookup, this] at h
+      exact List.mem_cons_of_mem _ (ih h)
+
+theorem sumQ_split (q : List (Nat × Int)) (a : Nat) (hq : ∀ p ∈ q, 0 ≤ p.2) :
+    lookupD q a + sumQ (q.filter (fun p => p.1 != a)) ≤ sumQ q := by
+  induction q with
+  | nil => simp [lookupD, sumQ]
+  | cons p rest ih =>
+    obtain ⟨j, v⟩ := p
+    have hv := hq (j, v) List.mem_cons_self
+    have ih' := ih (fun p hp => hq p (List.mem_cons_of_mem _ hp))
+    have hnn : 0 ≤ lookupD rest a := by
+      unfold lookupD
+      cases hl : rest.lookup a with
+      | none => simp
+      | some c =>
+        have : (a, c) ∈ rest := mem_of_lookup hl
+        exact hq _ (List.mem_cons_of_mem _ this)
+    by_cases hj : j = a
+    · subst hj
+      have : ((j, v).1 != j) = false := by simp
+      simp only [List.filter_cons, this, Bool.false_eq_true, if_false, lookupD_cons, if_true,
+        KG.Props.C07.sumQ_cons]
+      omega
+    · have : ((j, v).1 != a) = true := by simpa using hj
+      have hne : a ≠ j := fun e => hj e.symm
+      simp only [List.filter_cons, this, if_true, lookupD_cons, hne, if_false, KG.Props.C07.sumQ_cons]
+      omega
+
+/-- distinct instances hold, together, at most the recorded sum -/
+theorem sum_lookup_le : ∀ (ids : List Nat) (q : List (Nat × Int)), ids.Nodup → (∀ p ∈ q, 0 ≤ p.2) →
+    (ids.map (lookupD q)).sum ≤ sumQ q
+  | [], q, _, hq => by
+    simp only [List.map_nil, List.sum_nil]
+    induction q with
+    | nil => simp [sumQ]
+    | cons p rest ih =>
+      have := hq p List.mem_cons_self
+      have := ih (fun p hp => hq p (List.mem_cons_of_mem _ hp))
+      rw [KG.Props.C07.sumQ_cons]; omega
+  | a :: rest, q, hn, hq => by
+    have hn' := List.nodup_cons.1 hn
+    have ih := sum_lookup_le rest (q.filter (fun p => p.1 != a)) hn'.2
+      (fun p hp => hq p (List.mem_filter.1 hp).1)
+    have hs := sumQ_split q a hq
+    have he : (rest.map (lookupD (q.filter (fun p => p.1 != a)))).sum = (rest.map (lookupD q)).sum := by
+      congr 1
+      apply List.map_congr_left
+      intro i hi
+      exact lookupD_filter_ne q a i (fun e => hn'.1 (e ▸ hi))
+    simp only [List.map_cons, List.sum_cons]
+    omega
+
+theorem judgeG_remote {g : GObs} (h : judgeG g = []) (hr : g.remote = true) :
+    ∃ r, g.raw = some r ∧ (0 ≤ r → g.enforced ≤ r) := by
+  unfold judgeG at h
+  rw [if_pos hr] at h
+  cases hraw : g.raw with
+  | none => rw [hraw] at h; simp at h
+  | some r =>
+    rw [hraw] at h
+    refine ⟨r, rfl, ?_⟩
+    by_cases hc : 0 ≤ r → g.enforced ≤ r
+    · exact hc
+    · simp [hc] at h
+
+/-- **system-level no over-commit, at the level of observations**: gateways with distinct identities that hold
+    exactly what the server has on record for them enforce, together, at most the largest limit in force since the
+    record began plus the number of instances held at the minimum 1 -/
+theorem system_of_parts (s : SObs) (gs : List GObs) (hg : ∀ g ∈ gs, judgeG g = []) (hs : recordedOK s = true) :
+    systemOK s gs = true := by
+  unfold systemOK
+  simp only [Bool.or_eq_true, Bool.not_eq_true', Bool.and_eq_false_iff, decide_eq_false_iff_not, decide_eq_true_eq]
+  by_cases hpre : ((gs.filter (·.remote)).map (·.id)).Nodup ∧ (gs.filter (·.remote)).all (holdsRecord s.quotas) = true
+  · right
+    obtain ⟨hnd, hall⟩ := hpre
+    simp only [recordedOK, Bool.and_eq_true, List.all_eq_true, decide_eq_true_eq] at hs
+    obtain ⟨⟨hge, _⟩, hslack⟩ := hs
+    have hnn : ∀ p ∈ s.quotas, 0 ≤ p.2 := fun p hp => by have := hge p hp; omega
+    have h1 : ((gs.filter (·.remote)).map (·.enforced)).sum
+        ≤ ((gs.filter (·.remote)).map (fun g => lookupD s.quotas g.id)).sum := by
+      apply sum_map_le
+      intro g hgm
+      have hgm' := List.mem_filter.1 hgm
+      obtain ⟨r, hraw, hle⟩ := judgeG_remote (hg g hgm'.1) hgm'.2
+      have hh := List.all_eq_true.1 hall g hgm
+      unfold holdsRecord at hh
+      rw [hraw] at hh
+      cases hl : s.quotas.lookup g.id with
+      | none => rw [hl] at hh; cases hh
+      | some c =>
+        rw [hl] at hh
+        have hrc : r = c := by simpa using hh
+        have hc1 := hge _ (mem_of_lookup hl)
+        simp only [lookupD, hl, Option.getD_some]
+        subst hrc
+        exact hle (by omega)
+    have h2 := sum_lookup_le ((gs.filter (·.remote)).map (·.id)) s.quotas hnd hnn
+    rw [List.map_map] at h2
+    have : sumRemote gs = ((gs.filter (·.remote)).map (·.enforced)).sum := rfl
+    rw [this]
+    have h3 : ((gs.filter (·.remote)).map (lookupD s.quotas ∘ fun g => g.id)).sum
+        = ((gs.filter (·.remote)).map (fun g => lookupD s.quotas g.id)).sum := rfl
+    omega
+  · left
+    by_cases hnd : ((gs.filter (·.remote)).map (·.id)).Nodup
+    · right
+      cases hall : (gs.filter (·.remote)).all (holdsRecord s.quotas) with
+      | false => rfl
+      | true => exact absurd ⟨hnd, hall⟩ hpre
+    · left; exact hnd
+
+theorem recordedOK_of_sinv {e : UpStore} (h : SInv e) : recordedOK (obsS e) = true := by
+  simp only [recordedOK, obsS, Bool.and_eq_true, List.all_eq_true, decide_eq_true_eq]
+  exact ⟨⟨h.ge_one, h.recorded⟩, h.slack⟩
+
+/-- the judge accepts the observation of every state that satisfies the loop invariant -/
+theorem judgeU_of_linv {s : State} (h : LInv s) (u : Nat) : judgeU (obsU s u) = [] := by
+  have hgs : ∀ g ∈ (obsU s u).gws, judgeG g = [] := by
+    intro o ho
+    simp only [obsU, List.mem_map, List.mem_filter] at ho
+    obtain ⟨g, ⟨hg, hrep⟩, rfl⟩ := ho
+    have hgi := h.gws g hg
+    simp only [reports, Bool.and_eq_true] at hrep
+    cases hc : (g.st s.nShards u).cache with
+    | none => rw [hc] at hrep; simp at hrep
+    | some c => exact judgeG_ok (hgi.ok u) hc g.id _ (hgi.fresh u)
+  unfold judgeU
+  have h1 : ((obsU s u).gws.map judgeG).flatten = [] := by
+    rw [List.flatten_eq_nil_iff]
+    intro l hl
+    obtain ⟨o, ho, rfl⟩ := List.mem_map.1 hl
+    exact hgs o ho
+  rw [h1]
+  cases hsrv : (obsU s u).srv with
+  | none => rfl
+  | some so =>
+    simp only [obsU, Option.map_eq_some_iff] at hsrv
+    obtain ⟨e, he, rfl⟩ := hsrv
+    have hrec := recordedOK_of_sinv (h.srv.ups _ (aget_mem he))
+    have hsys := system_of_parts (obsS e) (obsU s u).gws hgs hrec
+    simp [hrec, hsys]
+
 end KG.Lemmas.LimiterLoop
